@@ -33,6 +33,11 @@ CHECKS = {
          "Every (statement position x expression position) pair is instantiated for 7 fault kinds and rendered by the real engine; when the instrumented helper's counter shows the fault was reached, Render must return an empty string and an error (errors.Is the sentinel for helper errors). Nestings to depth 3 are sampled; the tolerated unknown-identifier cases are checked to still succeed.",
          "Trusted: the enumerated position list is what 'every position' means here (54 statement positions x 43 expression positions); helper counters are exact because rendering is single-threaded per case.",
          "DESIGN.md §5 C05"),
+ "C06": ("exploration",
+         "runtime differential monitor: generated expression trees evaluated by the real engine and by a reference evaluator of the documented operator semantics; value, error status and recorded evaluation trace compared; three parenthesisations compared metamorphically",
+         "All trees of depth 1 over 22 leaves and of depth 2 over a 12-leaf pool (1/10 sample in quick, all in thorough), random trees to depth 5, each printed with minimal / random / full parentheses and with every leaf wrapped in a recording helper. Engine and reference must agree on value, on error vs no error and on the order and multiplicity of leaf evaluation (short circuit); the printings must agree among themselves. Operand pairs the property leaves open are executed but not judged (counted as abstained).",
+         "Trusted: the 150-line reference evaluator as the reading of the property text; Go int/float64 arithmetic as the meaning of integer/float operators.",
+         "DESIGN.md §5 C06"),
 }
 NOT_YET = "check not built yet in this round (see DESIGN.md §5 for the planned monitor)"
 
